@@ -600,6 +600,9 @@ var jsonBodies = []string{
 	`{"query":"query($s:String){ echo(s:$s) }","variables":{"s":{"a":{"b":[null,1,"x",{"c":[]}]}}}}`,
 	`{"query":"query($s:String!){ echo(s:$s) }"}`, `{"query":"query($n:Int!){ big(n:$n) }","variables":{"n":1e400}}`,
 	`{"query":"query($n:Int!){ big(n:$n) }","variables":{"n":99999999999999999999}}`, `{"query":"query($n:Int!){ big(n:$n) }","variables":{"n":-1}}`,
+	// legal documents in which @skip / @include leave a subscription without any root field
+	`{"query":"subscription { count(n: 2) @skip(if: true) }"}`, `{"query":"subscription($s: Boolean!) { s1 @include(if: $s) }","variables":{"s":false}}`,
+	`{"query":"subscription { ... @skip(if: true) { s1 } }"}`,
 	`{"query":"{ q1 }","operationName":null}`, `{"query":"{ q1 }","operationName":1}`, `{"query":"{ q1 }","operationName":["A"]}`, `{"query":"{ q1 }","operationName":"Zzz"}`,
 	`{"query":"{ q1 }","extensions":null}`, `{"query":"{ q1 }","extensions":[]}`, `{"query":"{ q1 }","extensions":"x"}`, `{"query":"{ q1 }","extensions":{"persistedQuery":null}}`,
 	`{"query":"{ q1 }","extensions":{"persistedQuery":1}}`, `{"query":"{ q1 }","extensions":{"persistedQuery":"x"}}`, `{"query":"{ q1 }","extensions":{"persistedQuery":[]}}`,
